@@ -1637,6 +1637,8 @@ pub enum Cmd {
     Goto(usize),
     Tron,
     Troff,
+    /// CONT after STOP or END
+    Cont,
 }
 
 impl Cmd {
@@ -1647,6 +1649,7 @@ impl Cmd {
             Cmd::Goto(l) => format!("GOTO {}", p.num(*l)),
             Cmd::Tron => "TRON".to_string(),
             Cmd::Troff => "TROFF".to_string(),
+            Cmd::Cont => "CONT".to_string(),
         }
     }
 }
@@ -1686,14 +1689,56 @@ pub fn model_session(p: &Prog, cmds: &[Cmd], max_steps: u64) -> Vec<ModelRun> {
     }
     m.pair_whiles();
     let mut runs = vec![];
+    // where CONT would go on: behind the STOP / END that ended the last run
+    let mut resume: Option<Pos> = None;
+    let mut cont_unspec = false;
     for cmd in cmds {
+        if let Cmd::Cont = cmd {
+            // with TRON on, CONT announces a line again or not depending on what is left of it: not judged
+            if m.tron || cont_unspec || (resume.is_none() && !runs.is_empty() && matches!(runs.last().map(|r: &ModelRun| &r.end), Some(End::Normal))) {
+                // CONT after a program ran off its end, or stopped in its last line
+                runs.push(ModelRun {
+                    out: String::new(),
+                    end: End::Unspec("CONT at the end of the program"),
+                    steps: 0,
+                    kinds: vec![],
+                    vars: m.vars.clone(),
+                    max_depth: m.max_depth,
+                    shape_log: vec![],
+                });
+                break;
+            }
+        }
+        if !matches!(cmd, Cmd::Tron | Cmd::Troff) {
+            cont_unspec = false;
+        }
         m.out.clear();
         m.col = 0;
         m.kinds.clear();
         m.shape_log.clear();
         // a direct line is not a program line: the trace starts afresh
         m.traced = None;
+        let mut start_pos: Option<Pos> = None;
+        if let Cmd::Cont = cmd {
+            match resume.take() {
+                Some(p0) => start_pos = Some(p0),
+                None => {
+                    m.emit("?CAN'T CONTINUE\nREADY.\n<STOPPED>");
+                    runs.push(ModelRun {
+                        out: m.out.clone(),
+                        end: End::Error("CAN'T CONTINUE", 0),
+                        steps: 0,
+                        kinds: vec![],
+                        vars: m.vars.clone(),
+                        max_depth: m.max_depth,
+                        shape_log: vec![],
+                    });
+                    continue;
+                }
+            }
+        }
         let start = match cmd {
+            Cmd::Cont => None,
             Cmd::Tron => {
                 m.tron = true;
                 None
@@ -1719,10 +1764,18 @@ pub fn model_session(p: &Prog, cmds: &[Cmd], max_steps: u64) -> Vec<ModelRun> {
             Cmd::Goto(l) => Some(m.line_of(*l).unwrap_or(p.lines.len())),
         };
         let mut steps = 0u64;
-        let end = match start {
+        if !matches!(cmd, Cmd::Tron | Cmd::Troff) {
+            resume = None;
+        }
+        let start_pos = match (start_pos, start) {
+            (Some(p0), _) => Some(p0),
+            (None, Some(line)) => Some(Pos { line, path: vec![], idx: 0 }),
+            (None, None) => None,
+        };
+        let end = match start_pos {
             None => End::Normal,
-            Some(line) => {
-                let mut pos = Pos { line, path: vec![], idx: 0 };
+            Some(p0) => {
+                let mut pos = p0;
                 let mut returned = false;
                 loop {
                     if pos.line >= p.lines.len() {
@@ -1751,7 +1804,16 @@ pub fn model_session(p: &Prog, cmds: &[Cmd], max_steps: u64) -> Vec<ModelRun> {
                     match m.exec(&pos, &st) {
                         Ok(Flow::Next) => pos = m.after(&pos),
                         Ok(Flow::Jump(t)) => pos = t,
-                        Ok(Flow::Finish(e)) => break e,
+                        Ok(Flow::Finish(e)) => {
+                            // STOP / END: CONT goes on behind it -- unless nothing of the program is
+                            // behind it (then the implementation says CAN'T CONTINUE or continues into
+                            // its closing End, depending on what the last line compiles to: not judged)
+                            resume = if pos.line + 1 >= p.lines.len() { None } else { Some(m.after(&pos)) };
+                            if pos.line + 1 >= p.lines.len() {
+                                cont_unspec = true;
+                            }
+                            break e;
+                        }
                         Err(e) => break e,
                     }
                 }
